@@ -6,6 +6,7 @@ import (
 	"encoding/base64"
 	"errors"
 	"fmt"
+	"strings"
 	"testing"
 
 	conformancev1 "connectrpc.com/conformance/internal/gen/proto/go/connectrpc/conformance/v1"
@@ -23,6 +24,13 @@ type vfC18StatusCase struct {
 	Code    int      `json:"code"`
 	Msg     string   `json:"msg"`
 	Details []string `json:"details"` // each: the name of a Header message used as detail
+	// Trailers: the response trailers of the test case, rendered with the status into a gRPC-Web trailer block
+	Trailers []vfC18Hdr `json:"trailers,omitempty"`
+}
+
+type vfC18Hdr struct {
+	Name  string   `json:"name"`
+	Value []string `json:"value"`
 }
 
 func vfC18PercentDecode(s string) (string, bool) {
@@ -71,6 +79,13 @@ func TestVerifC18StatusTrailers(t *testing.T) {
 			for i, n := 0, rapid.IntRange(0, 3).Draw(t, "details"); i < n; i++ {
 				c.Details = append(c.Details, rapid.SampledFrom([]string{"x-a", "detail with % and +", ""}).Draw(t, "detail"))
 			}
+			for i, n := 0, rapid.IntRange(0, 4).Draw(t, "trailers"); i < n; i++ {
+				h := vfC18Hdr{Name: rapid.SampledFrom([]string{"x-repeated", "X-Repeated", "x-other", "x-data-bin", "X-Data-Bin"}).Draw(t, "trailerName")}
+				for j, k := 0, rapid.IntRange(0, 3).Draw(t, "trailerValues"); j < k; j++ {
+					h.Value = append(h.Value, rapid.SampledFrom([]string{"first", "second", "AAEC", "AwQF", "v 3"}).Draw(t, "trailerValue"))
+				}
+				c.Trailers = append(c.Trailers, h)
+			}
 			return c
 		},
 		Check: func(c vfC18StatusCase) error {
@@ -85,6 +100,29 @@ func TestVerifC18StatusTrailers(t *testing.T) {
 				cerr.AddDetail(det)
 				data, _ := proto.Marshal(msg)
 				wantDetails = append(wantDetails, data)
+			}
+			// the gRPC-Web trailer block: the status fields first, then every given trailer value, per lower-case key in order
+			var protoTrailers []*conformancev1.Header
+			wantBlock := map[string][]string{}
+			for _, h := range c.Trailers {
+				protoTrailers = append(protoTrailers, &conformancev1.Header{Name: h.Name, Value: append([]string{}, h.Value...)})
+				wantBlock[strings.ToLower(h.Name)] = append(wantBlock[strings.ToLower(h.Name)], h.Value...)
+			}
+			gotBlock := map[string][]string{}
+			for _, line := range strings.Split(grpcWebStatusEndStream(cerr, protoTrailers), "\r\n") {
+				if line == "" {
+					continue
+				}
+				k, v, ok := strings.Cut(line, ": ")
+				if !ok {
+					return verifkit.Violf("status-trailers:web-block", "line %q of the gRPC-Web trailer block has no \": \"", line)
+				}
+				gotBlock[k] = append(gotBlock[k], v)
+			}
+			for k, vals := range wantBlock {
+				if len(vals) > 0 && fmt.Sprintf("%q", gotBlock[k]) != fmt.Sprintf("%q", vals) {
+					return verifkit.Violf("status-trailers:web-block", "gRPC-Web trailer block: key %q has values %q, the response trailers %v give %q", k, gotBlock[k], c.Trailers, vals)
+				}
 			}
 			got := map[string][]string{}
 			for _, h := range grpcStatusTrailers(cerr) {
